@@ -10,9 +10,20 @@ SingleCall(el) ==
   LET ccs == SelectSeq(Coalesce(el.children), Contributes) IN
   IF Len(ccs) = 1 /\ ccs[1].k = "expr" /\ ccs[1].e.k = "call" THEN ccs[1].e.name ELSE ""
 
+(* "lazily evaluated": the vnodes of written child elements are created inside a slot invocation, never *)
+(* while the host vnode itself is being created                                                        *)
+ChildTags(el) == {el.children[i].el.tag.name : i \in {j \in 1..Len(el.children) : el.children[j].k = "elem" /\ el.children[j].el.tag.k = "html"}}
+RECURSIVE DepthAt(_, _)
+DepthAt(evs, i) ==            \* number of open slot frames before event i
+  IF i <= 1 THEN 0 ELSE DepthAt(evs, i - 1) + (IF evs[i - 1].ev = "slot_begin" THEN 1 ELSE IF evs[i - 1].ev = "slot_end" THEN -1 ELSE 0)
+EagerChild(ob) ==
+  LET el == ob.abs.items[1].elem  evs == ob.rt.events IN
+  \E i \in 1..Len(evs) : evs[i].ev = "vnode" /\ evs[i].tag \in ChildTags(el) /\ DepthAt(evs, i) = 0
+
 Why(ob, D) ==
   LET w == WhyElem(ob, D) IN
   IF w # "" THEN w
+  ELSE IF EagerChild(ob) THEN "child-element-created-outside-its-slot"
   ELSE LET el == ob.abs.items[1].elem  f == SingleCall(el)  o == OptsOf(ob, D) IN
        IF f # "" /\ o.enableObjectSlots /\ CountEv(ob.rt.events, "call", f) # 1 THEN "call-child-not-once"
        ELSE ""
